@@ -76,6 +76,10 @@ def make_fault(case, spec):
 def run_case(case):
     p0 = work.prepare(case, record_sites=False, keep_args=False)
     fault, lin = make_fault(case, p0.spec)
+    if fault is not None and case["cfg"].get("validate_input") is False:
+        # without validation only NaN is used: an infinite gradient component is clipped away by the projection, so
+        # that the equation *as the callbacks define it* may well be solved -- the reference functions cannot judge that
+        fault.value = float("nan")
     p = work.prepare(case, fault=fault, record_sites=False, keep_args=False) if fault else p0
     out = mon.run_solve(p.rec, p.params, p.x0, p.y0, lin_fail=lin)
     cls = work.outcome_class(out)
